@@ -18,7 +18,7 @@ from fractions import Fraction
 from lib import core
 
 DRIVER = "drv_pdf"
-LEAN_TARGETS = ["OmplModel.Props.C12", DRIVER]
+LEAN_TARGETS = ["OmplModel.Props.C12", DRIVER, "drv_est"]
 HFLAGS = ("-D_GLIBCXX_ASSERTIONS", "-D_GLIBCXX_SANITIZE_VECTOR")
 EPS = Fraction(1, 2 ** 53)
 B = core.f2bits
@@ -831,8 +831,329 @@ def corpus():
     return out
 
 
+# ================================================================================== second engine: EST
+# The main user of ompl::PDF: geometric::EST keeps one PDF element per tree motion, with weight
+# 1/(number of motions within nbrhoodRadius_, itself included).  Lock-step runs of the REAL planner
+# (harness/est.cpp, linked against libompl of the current tree) against the Lean model (drv_est, built on
+# the PDF model), plus an independent Python oracle on the planner's own outputs.
+EST_DRIVER = "drv_est"
+
+
+def build_est(ck):
+    return ck.build_harness("est", ["est.cpp"], link_ompl=True)
+
+
+class EstProblem:
+    def __init__(self, dim, lo, hi, pdim, boxes, res, rng, bias, goal, thr, starts, seed, iters, tag):
+        self.__dict__.update(locals())
+        del self.__dict__["self"]
+
+    def config(self):
+        L = ["est %d" % self.dim, "bounds " + " ".join(map(B, self.lo + self.hi))]
+        parts = ["boxes", str(self.pdim), str(len(self.boxes))]
+        for blo, bhi in self.boxes:
+            parts += list(map(B, blo)) + list(map(B, bhi))
+        L.append(" ".join(parts))
+        L += ["res " + B(self.res), "range " + B(self.rng), "bias " + B(self.bias), "goal " + " ".join(map(B, self.goal)),
+              "thr " + B(self.thr)]
+        for st in self.starts:
+            L.append("start " + " ".join(map(B, st)))
+        return L
+
+    def harness_script(self):
+        return self.config() + ["seed %d" % self.seed, "iters %d" % self.iters, "go"]
+
+    def valid(self, x):
+        eps = 2.220446049250313e-16
+        for d in range(self.dim):
+            if x[d] - eps > self.hi[d] or x[d] + eps < self.lo[d]:
+                return False
+        for blo, bhi in self.boxes:
+            if all(not (x[d] < blo[d] or x[d] > bhi[d]) for d in range(self.pdim)):
+                return False
+        return True
+
+    def describe(self):
+        return {"engine": "est", "dim": self.dim, "boxes": len(self.boxes), "range": self.rng, "bias": self.bias,
+                "thr": self.thr, "starts": len(self.starts), "seed": self.seed, "iters": self.iters, "tag": self.tag}
+
+
+def rv_dist(a, b):
+    """RealVectorStateSpace::distance, same operation order"""
+    dsum = 0.0
+    for i in range(len(a)):
+        diff = a[i] - b[i]
+        dsum += diff * diff
+    return math.sqrt(dsum)
+
+
+def gen_est_problem(r, i):
+    dim = r.choice([2, 2, 3])
+    off = r.choice([0.0, 0.0, -2.0, 5.0])
+    scale = r.choice([1.0, 1.0, 4.0])
+    lo = [off] * dim
+    hi = [off + scale * r.choice([1.0, 1.0, 1.5]) for _ in range(dim)]
+    ext = math.sqrt(sum((hi[d] - lo[d]) ** 2 for d in range(dim)))
+    boxes = []
+    for _ in range(r.below(7)):
+        c = [r.uniform(lo[d], hi[d]) for d in range(dim)]
+        h = [r.uniform(0.02, 0.2) * (hi[d] - lo[d]) for d in range(dim)]
+        boxes.append(([c[d] - h[d] for d in range(dim)], [c[d] + h[d] for d in range(dim)]))
+    # range: auto (0), dense neighbourhoods (large radius), sparse (small), huge
+    rng = r.choice([0.0, 0.0, 0.05 * ext, 0.15 * ext, 0.5 * ext, 3.0 * ext])
+    p = EstProblem(dim, lo, hi, dim, boxes, r.choice([0.005, 0.01, 0.02, 0.05]), rng, r.choice([0.05, 0.05, 0.3, 0.0, 1.0, 0.5]),
+                   None, r.choice([0.0, 0.0, 0.0, 0.01, 0.03, 0.1]) * ext, [], r.range(1, 100000),
+                   r.choice([0, 1, 5, 40, 150, 400, 900, 2500]), "random")
+
+    def pick():
+        for _ in range(200):
+            x = [r.uniform(lo[d], hi[d]) for d in range(dim)]
+            if p.valid(x):
+                return x
+        p.boxes = []
+        return [r.uniform(lo[d], hi[d]) for d in range(dim)]
+    p.goal = pick()
+    k = i % 9
+    ns = r.choice([1, 1, 2, 4])
+    p.starts = [pick() for _ in range(ns)]
+    if k == 3:      # several starts inside one neighbourhood: the start loop already updates weights
+        p.tag = "clustered-starts"
+        base = p.starts[0]
+        rad = (rng if rng > 0 else 0.2 * ext) / 3.0
+        p.starts = [base] + [[min(max(base[d] + r.uniform(-0.3, 0.3) * rad, lo[d]), hi[d]) for d in range(dim)] for _ in range(3)]
+    elif k == 4:    # an invalid start among valid ones / only invalid starts
+        p.tag = "bad-starts"
+        bad = [hi[d] + 1.0 for d in range(dim)]
+        p.starts = ([bad] + p.starts) if r.chance(2, 3) else [bad]
+    elif k == 5:    # start == goal (solved by the first accepted goal sample) / zero threshold
+        p.tag = "start-is-goal"
+        p.starts = [list(p.goal)]
+        p.bias = 1.0
+    elif k == 6:    # huge range: everything is everybody's neighbour (counts = tree size)
+        p.tag = "all-neighbours"
+        p.rng = 6.0 * ext
+        p.thr = 0.0
+        p.iters = r.choice([150, 400, 1500])
+    return p
+
+
+def est_parse(lines):
+    """harness output -> (script lines the run consumed, result dict)"""
+    if "end-of-script" not in lines:
+        return None, None
+    k = lines.index("end-of-script")
+    R = {"consumed": lines[:k], "exception": None}
+    for l in lines[k + 1:]:
+        if l.startswith("exception "):
+            R["exception"] = l
+        elif l.startswith("status="):
+            R["statusline"] = l
+            R["kv"] = dict(x.split("=", 1) for x in l.split())
+        elif l.startswith("tree "):
+            R["tree"] = l
+        elif l.startswith("pdf "):
+            R["pdf"] = l
+        elif l.startswith("path "):
+            R["path"] = l
+        elif l.startswith("next "):
+            R["next"] = l
+    return R["consumed"], R
+
+
+def est_tree(line):
+    nodes = []
+    for tok in line.split()[2:]:
+        if ":" not in tok:
+            return None
+        par, _, st = tok.partition(":")
+        nodes.append((int(par), [F(x) for x in st.split(",")]))
+    return nodes
+
+
+def est_oracle(p, R):
+    """the property at the planner level, evaluated independently on the REAL planner's outputs:
+    exactly one PDF element per tree motion (and back), index_ in sync, every element's weight equal to
+    the formula for the motion's CURRENT neighbour count, the tree rooted in valid starts, the reported
+    path a root-to-node branch whose flags agree with the goal distance."""
+    if R.get("exception"):
+        return "solve threw: " + R["exception"]
+    for k in ("statusline", "tree", "pdf", "path", "next"):
+        if k not in R:
+            return "harness output lacks the %s line" % k
+    if "NN-ORDER-DIFFERS" in R["tree"]:
+        return "nn_ and motions_ hold different motion sequences"
+    nodes = est_tree(R["tree"])
+    if nodes is None:
+        return "unparsable tree"
+    n = len(nodes)
+    kv = R["kv"]
+    radius = F(kv["radius"])
+    # ---- the tree
+    vstarts = [s for s in p.starts if p.valid(s)]
+    roots = [st for par, st in nodes if par < 0]
+    if roots != vstarts[:len(roots)] or (n > 0 and len(roots) != len(vstarts)):
+        return "tree roots %r are not the valid start states %r" % (roots, vstarts)
+    for i, (par, st) in enumerate(nodes):
+        if par >= i:
+            return "motion %d has parent %d (not an earlier motion)" % (i, par)
+        if not p.valid(st):
+            return "tree state %d is invalid" % i
+    # ---- the PDF
+    try:
+        t = R["pdf"].split()[1:]
+        pn = int(t[0][2:])
+        ordtoks = [x for x in t[1][4:].split(",") if x]
+        ix = [x for x in t[2][3:].split(",") if x]
+        nrows = int(t[3][5:])
+        rows = []
+        for tok in t[4:4 + nrows]:
+            ln, _, vals = tok[1:-1].partition(":")
+            rows.append([F(v) for v in vals.split(",") if v])
+    except Exception as e:  # noqa
+        return "unparsable pdf dump (%r)" % (e,)
+    if any(x.endswith("!") or x.startswith("?") for x in ordtoks):
+        return "a PDF element's motion does not point back at that element (motion->element): %s" % ",".join(ordtoks)
+    order = [int(x) for x in ordtoks]
+    if pn != n or sorted(order) != list(range(n)):
+        return "the PDF holds %d elements %s for %d tree motions" % (pn, order, n)
+    if ix != [str(i) for i in range(pn)]:
+        return "PDF index_ fields out of sync: %s" % ",".join(ix)
+    if n:
+        want = [n]
+        while want[-1] > 1:
+            want.append((want[-1] + 1) // 2)
+        if [len(rw) for rw in rows] != want:
+            return "PDF row sizes %s, expected %s" % ([len(rw) for rw in rows], want)
+        states = [st for _, st in nodes]
+        for pos, m in enumerate(order):
+            earlier = sum(1 for j in range(m) if rv_dist(states[j], states[m]) <= radius)
+            later = sum(1 for j in range(m + 1, n) if rv_dist(states[m], states[j]) <= radius)
+            w = 1.0 / (earlier + 1.0)
+            for _ in range(later):
+                w = w / (w + 1.0)
+            got = rows[0][pos]
+            if B(got) != B(w):
+                return ("weight of motion %d is %r; with %d neighbours at insertion and %d added since the coded formula gives %r"
+                        % (m, got, earlier, later, w))
+            ideal = Fraction(1, earlier + later + 1)
+            if abs(Fraction(got) - ideal) > ideal * (later + 2) * 2 * EPS:
+                return "weight of motion %d is %r, not 1/(%d+1) for its %d current neighbours" % (m, got, earlier + later, earlier + later)
+        for lvl in range(1, len(rows)):
+            for j, v in enumerate(rows[lvl]):
+                c = rows[lvl - 1][2 * j:2 * j + 2]
+                sabs = sum(abs(x) for x in c)
+                if not abs(v - sum(c)) <= 1e-9 * sabs + 5e-324:
+                    return "PDF cell row %d col %d = %r but its children sum to %r" % (lvl, j, v, sum(c))
+    # ---- the report
+    added = kv["added"] == "1"
+    status = kv["status"]
+    if n == 0:
+        if status != "INVALID_START" or added:
+            return "no valid start but status %s added=%s" % (status, kv["added"])
+        return None
+    if (status in ("EXACT_SOLUTION", "APPROXIMATE_SOLUTION")) != added or (kv["bool"] == "1") != added:
+        return "status %s but added=%s" % (status, kv["added"])
+    if added:
+        pts = [[F(x) for x in tok.split(",")] for tok in R["path"].split()[2:]]
+        states = [st for _, st in nodes]
+        # the path must be a root-to-node branch of the tree
+        cands = [i for i in range(n) if states[i] == pts[-1]]
+        ok = False
+        for c in cands:
+            br = []
+            j = c
+            while j >= 0:
+                br.append(states[j])
+                j = nodes[j][0]
+            if list(reversed(br)) == pts:
+                ok = True
+        if not ok:
+            return "the reported path is not a root-to-node branch of the tree"
+        d = rv_dist(pts[-1], p.goal)
+        if B(d) != kv["diff"]:
+            return "reported difference %r, goal distance of the last state is %r" % (F(kv["diff"]), d)
+        if (d < p.thr) != (status == "EXACT_SOLUTION") or (kv["approx"] == "1") != (status == "APPROXIMATE_SOLUTION"):
+            return "status %s approx=%s but goal distance %r vs threshold %r" % (status, kv["approx"], d, p.thr)
+        if kv["approx"] == "1" and kv.get("pdefdiff") != kv["diff"]:
+            return "problem definition stores difference %s, reported %s" % (kv.get("pdefdiff"), kv["diff"])
+    elif status != "TIMEOUT":
+        return "status %s without a solution" % status
+    return None
+
+
+def est_one(ck, hbin, p):
+    """returns (what | None, kind, impl lines, model lines, R)"""
+    impl, rc, err = ck.run_bin(hbin, p.harness_script(), timeout=300)
+    if impl is None or rc != 0:
+        tail = " ".join((err or "").strip().splitlines()[-6:])[-600:]
+        return "EST harness stopped (exit %s): %s" % (rc, tail), "crash", impl or [], [], {}
+    consumed, R = est_parse(impl)
+    if consumed is None:
+        return "EST harness printed no script", "crash", impl, [], {}
+    what = est_oracle(p, R)
+    ds = p.config() + consumed + ["solve", "tree", "pdf", "path", "next"]
+    model, rc2, err2 = ck.run_bin(ck.driver(EST_DRIVER), ds, timeout=300)
+    if rc2 != 0 or model is None or len(model) < 5 or any(m == "bad-op" for m in model):
+        return what or "EST driver failed rc=%s" % rc2, "spec" if what else "driver", impl, model or [], R
+    m = model[-5:]
+    if what is not None:
+        return what, "spec", impl, m, R
+    d = dict(x.split("=", 1) for x in m[0].split())
+    kv = R["kv"]
+    for key in ("status", "bool", "added", "approx", "diff", "lvs", "range", "radius", "nstart", "nnear", "ngs"):
+        if d.get(key) != kv.get(key):
+            return "model/implementation disagreement: %s differs (impl %s, model %s)" % (key, kv.get(key), d.get(key)), "diff", impl, m, R
+    for name, a, b_ in (("tree", R["tree"], m[1]), ("pdf", R["pdf"], m[2]), ("path", R["path"], m[3]), ("next rng_ draw", R["next"], m[4])):
+        if a != b_:
+            if name == "pdf" and a.split()[:4] == b_.split()[:4] and a.split()[5] == b_.split()[5]:
+                # same elements, same weights; only inner sums differ: equidistant neighbours updated in another order
+                return "pdf-inner-sums-only", "drift", impl, m, R
+            return "model/implementation disagreement: %s differs" % name, "diff", impl, m, R
+    return None, None, impl, m, R
+
+
+def est_jobs(ck):
+    n = 70 if ck.tier == "quick" else 600
+    r = ck.rng.fork("est")
+    return [gen_est_problem(r.fork("p%d" % i), i) for i in range(n)]
+
+
+def est_judge(ck, p, res):
+    what, kind, impl, model, R = res
+    ck.traces_validated += 1
+    ntree = 0
+    if R.get("tree"):
+        ntree = int(R["tree"].split()[1][2:])
+    ck.case(("est", tuple(p.harness_script())), ntree >= 4)
+    ck.count("est:runs")
+    ck.count("est:gen:" + p.tag)
+    ck.count("est:tree-motions", ntree)
+    if R.get("kv"):
+        ck.count("est:status:" + R["kv"].get("status", "?"))
+        ck.count("est:sampleNear-results", int(R["kv"].get("nnear", 0)))
+        ck.count("est:goal-samples", int(R["kv"].get("ngs", 0)))
+    ck.sample(p.describe())
+    if what is None:
+        return True
+    if kind == "drift":
+        ck.drift_events += 1
+        ck.count("est:pdf-inner-sums-differ-only(equidistant neighbours)")
+        return True
+    rec = {"engine": "est", "kind": kind, "what": what}
+    if kind in ("spec", "crash"):
+        ck.report(rec, script=p.harness_script(), expected=model, observed=impl[-6:] if impl else [], engine="est")
+        ck.log("EST property failure: %s" % what[:300])
+    else:
+        ck.disagreements += 1
+        ck.report(rec, script=p.harness_script(), expected=model, observed=impl[-6:] if impl else [], found_input=False, engine="est",
+                  obligation="correspondence est: EST.cpp vs OmplModel.Model.EST (%s)" % what)
+        ck.log("EST correspondence: %s" % what[:300])
+    return False
+
+
 def setup(ck):
     build(ck)
+    build_est(ck)
 
 
 def plan(ck):
@@ -883,21 +1204,31 @@ def run(ck):
                        "changes the node's leaves (history-dependent, relative to the node, no absolute epsilon)",
                        "total weight 0: any surviving element may be returned (the rule has no interval to offer)"]
     ck.lean_build(LEAN_TARGETS)
-    ck.audit(roots=["Drv.Pdf"])
+    ck.audit(roots=["Drv.Pdf", "Drv.EST"])
     if ck.tier == "thorough" and ck.lean_ok:
         ck.leanchecker(["OmplModel.Props.C12"])
     hbin = build(ck)
+    ebin = build_est(ck)
     if not ck.lean_ok:
         return 0
     scripts = plan(ck)
+    ejobs = est_jobs(ck)
     bad = 0
-    with ThreadPoolExecutor(max_workers=12) as ex:
+    with ThreadPoolExecutor(max_workers=14) as ex:
+        eres = [ex.submit(est_one, ck, ebin, p) for p in ejobs]
         results = ex.map(lambda ts: run_script(ck, hbin, ts[1]), scripts)
         for (tag, script), res in zip(scripts, results):
             if bad >= 3:
                 break
             if not judge(ck, hbin, script, tag, res):
                 bad += 1
+        ebad = 0
+        for p, fut in zip(ejobs, eres):
+            if ebad >= 3:
+                fut.cancel()
+                continue
+            if not est_judge(ck, p, fut.result()):
+                ebad += 1
     return 0
 
 
